@@ -505,7 +505,14 @@ func (e *FunctionCallExpr) Value(ctx *hcl.EvalContext) (cty.Value, hcl.Diagnosti
 
 			// Try to convert our value to the parameter type
 			var err error
+			argVal := val
 			val, err = convert.Convert(val, param.Type)
+			if err != nil && argVal.ContainsMarked() {
+				// The conversion error may quote map keys or attribute names of
+				// the value, which for a marked value may be content the calling
+				// application considers sensitive, so we only describe the wanted type.
+				err = fmt.Errorf("%s required", param.Type.FriendlyNameForConstraint())
+			}
 			if err != nil {
 				diags = append(diags, &hcl.Diagnostic{
 					Severity: hcl.DiagError,
